@@ -225,3 +225,35 @@ def poll_subscribe(ctx, mask):
     del ops[:]
     out = run('unsubscribe', [d])
     ctx.prove(out == 'ok', 'C13+C14:O13.6.poll.unsubscribe-raises-nothing', info=out)
+
+
+@unit(name='poller.init', relpath=PMOD, qual=['SelectPoller.__init__', 'createPoller'], props=['C13', 'C14'],
+      doc='a new SelectPoller has nothing subscribed; createPoller returns a poller for "auto", "poll" and "select" and refuses anything else')
+def poller_init(ctx):
+    mod = source.load(PMOD)
+    fn, ci = mod.find('SelectPoller.__init__')
+    obj = ctx.alloc(PObj('SelectPoller', {}))
+    I = Interp(ctx)
+    I.cur_mod = mod
+    I.call_funcdef(fn, mod, 'SelectPoller', obj, [], {}, None, 'SelectPoller.__init__')
+    f = ctx.cell(obj).fields
+    for n in ('descrsRead', 'descrsWrite', 'descrsError', 'descrToCallbacks'):
+        c = ctx.cell(f[SP(n)]) if isinstance(f.get(SP(n)), Ref) else None
+        ctx.prove(c is not None and len(getattr(c, 'entries', None) or getattr(c, 'items', None) or []) == 0, 'C13+C14:init.select-poller-starts-empty', info=n)
+    made = []
+    hooks = {'new:PollPoller': lambda I_, a, k: made.append('poll') or 'poll', 'new:SelectPoller': lambda I_, a, k: made.append('select') or 'select'}
+    fn2, _ = mod.find('createPoller')
+    has_poll = FreshBool('selectHasPoll')
+    for kind, want in (('auto', None), ('poll', 'poll'), ('select', 'select')):
+        I2 = Interp(ctx, externals={'hasattr': lambda I_, a, k: has_poll}, hooks=hooks)
+        I2.cur_mod = mod
+        r = I2.call_funcdef(fn2, mod, None, None, [kind], {}, None, 'createPoller')
+        ctx.prove(r in ('poll', 'select') and (want is None or r == want), 'C13+C14:init.createPoller-returns-the-requested-poller', info='%s -> %r' % (kind, r))
+    I3 = Interp(ctx, hooks=hooks)
+    I3.cur_mod = mod
+    try:
+        I3.call_funcdef(fn2, mod, None, None, ['epoll'], {}, None, 'createPoller')
+        out = 'ok'
+    except PyExc as e:
+        out = e.typ
+    ctx.prove(out != 'ok', 'C13:init.createPoller-refuses-unknown-types', info=out)
